@@ -404,7 +404,7 @@ ASYNC_ITER_FLAVOURS = ("cls", "agen")  # flavours that own something to release
 
 # --------------------------------------------------------------------------- callables
 
-FLAVOURS_CALL = ("asyncdef", "def", "partial", "obj", "aw", "cls", "objfalsy")
+FLAVOURS_CALL = ("asyncdef", "def", "partial", "obj", "aw", "cls", "objfalsy", "defwraps")
 FLAVOURS_SYNC_ONLY = ("mixed", "mixed2")   # for asynctools.sync: calls of one function differ in kind
 
 
@@ -448,6 +448,16 @@ def make_callable(flavour, rec: Recorder, name, sem=None):
         await suspend(rec.acct, ("call", name), rec.susp)
         return body(*a)
 
+    if flavour == "defwraps":
+        # a plain function that *wraps* a coroutine function (functools.wraps sets __wrapped__) but computes
+        # its result synchronously: what counts is what the call returns, not what it wraps
+        def fw(*a):
+            return body(*a)
+
+        async def inner(*a):
+            raise AssertionError("the wrapped coroutine function is never to be called")
+        fw.__wrapped__ = inner
+        return fw
     if flavour == "asyncdef":
         return af
     if flavour == "partial":
